@@ -90,6 +90,23 @@ theorem chosen_relay_is_outbound_member_unbanned (peers : List RPeer) (pick id :
   simp only [Bool.and_eq_true, Bool.not_eq_eq_eq_not, Bool.not_true] at h2
   exact ⟨h2.1.1, h2.1.2, h2.2⟩
 
+/-- … and the specification is exactly that set: every outbound, unbanned member can be the result of
+the random choice (`choose_random` over the filtered iterator) -/
+theorem every_candidate_can_be_chosen (peers : List RPeer) (p : RPeer) (hp : p ∈ peers)
+    (hm : p.member = true) (ho : p.outbound = true) (hb : p.banned = false) :
+    ∃ pick, chooseRelay peers pick = some p.id := by
+  have hc : p ∈ peers.filter (fun p => p.member && p.outbound && !p.banned) :=
+    List.mem_filter.mpr ⟨hp, by simp [hm, ho, hb]⟩
+  obtain ⟨i, hi, he⟩ := List.getElem_of_mem hc
+  refine ⟨i, ?_⟩
+  unfold chooseRelay
+  simp only []
+  rw [Nat.mod_eq_of_lt hi, List.getElem?_eq_getElem hi, he]
+  rfl
+
+example : ∃ pick, chooseRelay [{ id := 1, outbound := false }, { id := 2 }, { id := 3, banned := true }, { id := 4 }] pick = some 4 :=
+  ⟨1, by decide⟩
+
 /-- no outbound, unbanned member and no relay yet: a stem epoch fluffs -/
 theorem no_candidate_no_relay (always : Bool) (src : Src) (peers : List RPeer) (pick : Nat)
     (h : ∀ p ∈ peers, (p.member && p.outbound && !p.banned) = false) :
@@ -104,5 +121,19 @@ theorem fluff_epoch_asks_nobody (always : Bool) (src : Src) (cur : Option Nat) (
     (h : (src.isPushed && always) = false) :
     stemTxAcceptedR false always src cur peers pick = (true, cur) := by
   simp [stemTxAcceptedR, h]
+
+/-- **a full send channel**: `ConnHandle::send` answers `Ok` on `TrySendError::Full` and DROPS the message, so
+the relay step reports success (`alive`) and the transaction stays in the stempool although nobody received
+it.  What brings it out is the embargo: at the first monitor pass at which it is older than
+`embargo_secs + draw` it is among the entries `process_expired_entries` submits on the fluff path
+(reasoned from p2p/src/conn.rs; not driven: the harness cannot park the writer thread of a `p2p::Peer`). -/
+theorem dropped_stem_tx_leaves_by_the_embargo (m : Clock) (now : Int) (d : DCfg) (roll : Nat) (s : TxPool) (e : Entry)
+    (he : e ∈ s.stempool) (hold : tsOf (atOf m e.tx) < tsOf now - ((embargoCutoff d roll : Nat) : Int)) :
+    (Op.submit .embargoExpired e.tx false false) ∈
+      (selectCutoff m now (embargoCutoff d roll) s.stempool).map (fun e => Op.submit .embargoExpired e.tx false false) := by
+  apply List.mem_map.mpr
+  refine ⟨e, ?_, rfl⟩
+  unfold selectCutoff
+  exact List.mem_filter.mpr ⟨he, by simpa using hold⟩
 
 end GV.Props.C14Relay
